@@ -1,6 +1,6 @@
 (** Prop_C17.v -- C17: protocol discipline. *)
 From MW Require Import Base Store Monad Usage Server Websocket Service Findings Inv Obs
-     ProtoFacts StepFacts Corollaries Inst_Params OpFacts HistFacts HoldInv KfFacts WireFacts.
+     ProtoFacts StepFacts Corollaries Inst_Params OpFacts HistFacts HoldInv KfFacts WireFacts FlagBridge.
 Local Open Scope list_scope.
 
 (** every connection is first sent `welcome` with the configured notices
@@ -174,3 +174,108 @@ Proof. vm_compute. reflexivity. Qed.
 Example C17_nonvacuous :
   erroneous new_conn (mkCmd (Some TList) None None None None None None None None None None) = true.
 Proof. reflexivity. Qed.
+
+(** * the per-connection flags are what the connection sent (quoted by type from FlagBridge.v).  [after h] = the state after history h from the initial state; [alive c tr]: no disconnect of c, restart, crash or internal failure of c's commands in tr *)
+
+(** a connection is bound to (app, side) only by its own bind command carrying exactly those, answered without error, and nothing since *)
+Theorem C17_bound_is_bind_cmd : ltac:(let t := type of bound_is_bind_cmd in exact t).
+Proof. exact bound_is_bind_cmd. Qed.
+Check C17_bound_is_bind_cmd.
+Print Assumptions C17_bound_is_bind_cmd.
+
+(** ... and conversely *)
+Theorem C17_bind_establishes_bound : ltac:(let t := type of bind_establishes_bound in exact t).
+Proof. exact bind_establishes_bound. Qed.
+Check C17_bind_establishes_bound.
+Print Assumptions C17_bind_establishes_bound.
+
+(** all flags at once: a fold over the history *)
+Theorem C17_flags_track_history : ltac:(let t := type of flags_track_history in exact t).
+Proof. exact flags_track_history. Qed.
+Check C17_flags_track_history.
+Print Assumptions C17_flags_track_history.
+
+(** `a second claim`: the flag is set iff the connection sent a claim with a nameplate that was not a protocol error (also when refused as crowded) *)
+Theorem C17_did_claim_iff : ltac:(let t := type of did_claim_iff in exact t).
+Proof. exact did_claim_iff. Qed.
+Check C17_did_claim_iff.
+Print Assumptions C17_did_claim_iff.
+
+(** allocate *)
+Theorem C17_did_allocate_iff : ltac:(let t := type of did_allocate_iff in exact t).
+Proof. exact did_allocate_iff. Qed.
+Check C17_did_allocate_iff.
+Print Assumptions C17_did_allocate_iff.
+
+(** release *)
+Theorem C17_did_release_iff : ltac:(let t := type of did_release_iff in exact t).
+Proof. exact did_release_iff. Qed.
+Check C17_did_release_iff.
+Print Assumptions C17_did_release_iff.
+
+(** close *)
+Theorem C17_did_close_iff : ltac:(let t := type of did_close_iff in exact t).
+Proof. exact did_close_iff. Qed.
+Check C17_did_close_iff.
+Print Assumptions C17_did_close_iff.
+
+(** `what was claimed` is the nameplate of that claim command *)
+Theorem C17_nameplate_id_is_claim_cmd : ltac:(let t := type of nameplate_id_is_claim_cmd in exact t).
+Proof. exact nameplate_id_is_claim_cmd. Qed.
+Check C17_nameplate_id_is_claim_cmd.
+Print Assumptions C17_nameplate_id_is_claim_cmd.
+
+(** `what was opened` is the mailbox of the last such open command *)
+Theorem C17_mailbox_id_iff : ltac:(let t := type of mailbox_id_iff in exact t).
+Proof. exact mailbox_id_iff. Qed.
+Check C17_mailbox_id_iff.
+Print Assumptions C17_mailbox_id_iff.
+
+(** holding a mailbox comes from the connection's own open *)
+Theorem C17_held_is_open_cmd : ltac:(let t := type of held_is_open_cmd in exact t).
+Proof. exact held_is_open_cmd. Qed.
+Check C17_held_is_open_cmd.
+Print Assumptions C17_held_is_open_cmd.
+
+(** a command that does not fail internally drops nobody *)
+Theorem C17_cmd_keeps_conns : ltac:(let t := type of cmd_keeps_conns in exact t).
+Proof. exact cmd_keeps_conns. Qed.
+Check C17_cmd_keeps_conns.
+Print Assumptions C17_cmd_keeps_conns.
+
+(** a connection leaves only by its own disconnect, a restart, a crash, or an internal failure of its own command *)
+Theorem C17_conn_leaves_only_by : ltac:(let t := type of conn_leaves_only_by in exact t).
+Proof. exact conn_leaves_only_by. Qed.
+Check C17_conn_leaves_only_by.
+Print Assumptions C17_conn_leaves_only_by.
+
+(** run level *)
+Theorem C17_conn_stays_run : ltac:(let t := type of conn_stays_run in exact t).
+Proof. exact conn_stays_run. Qed.
+Check C17_conn_stays_run.
+Print Assumptions C17_conn_stays_run.
+
+(** the model's `oracle mismatch` exception is raised only when the recorded oracle does not fit the command *)
+Theorem C17_xoracle_only_misfit : ltac:(let t := type of xoracle_only_misfit in exact t).
+Proof. exact xoracle_only_misfit. Qed.
+Check C17_xoracle_only_misfit.
+Print Assumptions C17_xoracle_only_misfit.
+
+(** with a fitting oracle an internal failure implies one of the known-finding triggers or an id collision: no `XOracle` escape hatch *)
+Theorem C17_no_internal_error_fits : ltac:(let t := type of no_internal_error_fits in exact t).
+Proof. exact no_internal_error_fits. Qed.
+Check C17_no_internal_error_fits.
+Print Assumptions C17_no_internal_error_fits.
+
+(** a claim / open refused as crowded DOES set the flags (the refuted simpler statement) *)
+Theorem C17_flags_error_answer_refuted : ltac:(let t := type of FlagBridgeExamples.flags_error_answer_refuted in exact t).
+Proof. exact FlagBridgeExamples.flags_error_answer_refuted. Qed.
+Check C17_flags_error_answer_refuted.
+Print Assumptions C17_flags_error_answer_refuted.
+
+(** non-vacuity *)
+Theorem C17_flags_nonvacuous : ltac:(let t := type of FlagBridgeExamples.flags_nonvacuous in exact t).
+Proof. exact FlagBridgeExamples.flags_nonvacuous. Qed.
+Check C17_flags_nonvacuous.
+Print Assumptions C17_flags_nonvacuous.
+
